@@ -128,6 +128,24 @@ PLAN = {
         ],
         "require_counters": {"all": ["add_vars", "make_node_calls"]},
     },
+    "C11": {
+        "level": "exploration",
+        "exhaustive": True,
+        "rule": "tdd: 1 variable: all 27 functions, all 27x27 pairs x 8 operators, all 27^3 ite triples, not/not_owned/not_edge_owned, "
+                "constants f/t/u, var, eval on all three-valued assignments, cofactors; 2 variables, both orders: all 19683 functions "
+                "built and checked (unary ops on all in thorough), sampled pairs x 8 operators and ite triples biased to the special "
+                "cases of the ite rule; operator mixes on the same operands with apply caches of 1..64 entries; 40-variable eval; "
+                "random operator DAGs over 3..5 variables; structural audit and empty store at the end of every manager. Oracle: "
+                "literal 3x3 Kleene / Lukasiewicz tables and the ite rule of the property, independent interpreter. distinct = distinct "
+                "(operator, operand tables, order) with non-constant result.",
+        "assumptions": ["eval with partial assignments is outside the property", "TDD has no multi-threaded apply (threads only change the worker pool)"],
+        "jobs": [
+            {"monitor": "c11_exh", "variant": "rel", "shards": 16},
+            {"monitor": "c11_rand", "variant": "rel", "shards": 16},
+            {"monitor": "c11_rand", "variant": "dbg", "shards": 8},
+        ],
+        "require_counters": {"all": ["pairs", "triples"]},
+    },
     "C13": {
         "level": "exploration",
         "exhaustive": True,
@@ -180,6 +198,14 @@ PLAN = {
 HOOK_COMMITS = []
 
 MANIFEST_TEXT = {
+    "C11": {
+        "text": "Held on every executed case: complete for one variable (all functions, pairs, ite triples), all 19683 two-variable "
+                "functions built under both orders with sampled operand tuples, against literal three-valued truth tables and an "
+                "independent interpreter; operator mixes with tiny caches; random DAGs over 3..5 variables.",
+        "design_ref": "DESIGN.md section 5 / C11",
+        "note": "Trusted: literal truth tables in harness/src/mon/c11.rs. Partial-assignment eval not asserted.",
+        "technique": "runtime monitoring: three-valued reference-model oracle over exhaustive 1-variable and sampled 2..5-variable executions",
+    },
     "C03": {
         "text": "Held at every quiescent point observed: the complete structural invariant is re-derived from the public "
                 "Manager API after every single step of reorder-, add_vars- and OutOfMemory-rich histories (and at the audit "
